@@ -664,6 +664,24 @@ def k12_schedule_once(core, rep):
                    f'{fn.name}() schedules lines through {add.name}(); only adding a form, a discovered dependency or an explicitly requested line may', f'{rel}:{c.lineno}')
     if n_calls < 2:
         raise AnalysisError(f'only {n_calls} scheduling sites found (anchor vanished)')
+    # whatever is handed to _add_unattempted ends in the queue: the function adds (extend / append / insert / insort / +=) and
+    # never skips an element - no `continue`, no early `return`, no conditional add inside a loop over what it was handed.  A
+    # "do not queue it twice" test keyed by anything but the line itself (the sort key, the base name) drops a different line
+    # that happens to collide; it is already marked as being solved, so nobody queues it again and its waiters wait for ever
+    def _adds(x):
+        return (isinstance(x, ast.Call) and isinstance(x.func, ast.Attribute) and x.func.attr in ('extend', 'append', 'insert', 'insort', 'insort_left', 'insort_right', 'appendleft', 'extendleft')) \
+            or (isinstance(x, ast.AugAssign) and isinstance(x.op, ast.Add))
+    adds_ = [x for x in ast.walk(add.node) if _adds(x)]
+    skips = [x for x in ast.walk(add.node) if isinstance(x, (ast.Continue, ast.Break)) or (isinstance(x, ast.Return) and x is not add.node.body[-1])]
+    cond_adds = []
+    for lp in [x for x in ast.walk(add.node) if isinstance(x, (ast.For, ast.While))]:
+        for st in lp.body:
+            if isinstance(st, (ast.If, ast.Try, ast.Match)) and any(_adds(y) for y in ast.walk(st)):
+                cond_adds.append(st)
+    bad = (skips or cond_adds or [None])[0]
+    rep.ob('K12', 'everything-handed-over-is-queued', bool(adds_) and bad is None,
+           f'{add.name}() can leave out a line it was handed (`{unparse(getattr(bad, "test", bad), 60) if bad is not None else "no add found"}`): a line that is marked as being solved but never queued is never '
+           'evaluated, never met, and every line waiting for it waits for ever', _w(add, bad) if bad is not None else _w(add))
     # the queue is written only by _add_unattempted (extend/append/sort) and popped only in solve
     for rel, n in core.all_nodes(ast.Attribute):
         if n.attr != s.queue or rel != s.rel:
@@ -767,6 +785,14 @@ def k13_add_form(core, rep):
         rep.ob('K13', f'scheduling-depends-on-input_only-alone@{unparse(n_.ast, 40)}', not others,
                f'_add_form() schedules the required lines only under a further condition ({others[:2]}): a form whose inputs were loaded first (input-only) and whose lines are referred to later '
                'may never get its required lines queued - they are missing from a return that reports success', _w(f, n_.ast))
+    # every call that returns normally - input-only or not, first time or not - has told the input store about the inputs of the
+    # form it was asked for: an early exit before that ("this form's inputs are already known", keyed by the bare form name)
+    # leaves the inputs of a second copy (8889:spouse after 8889:you) unknown, and the retry after MissingInputSpecification
+    # recurses without end
+    tells = [n for n in g.nodes if n.kind == 'stmt' and n.ast is not None and any(call_name(c) == 'update_input_spec' for c in calls_in(n.ast))]
+    rep.ob('K13', 'inputs-registered-on-every-normal-return', bool(tells) and not g.paths_avoiding(g.entry, g.exit, {n.id for n in tells}),
+           '_add_form() can return without having registered the inputs of the form it was asked for (an early exit before update_input_spec): the line that asked for one of those inputs '
+           'is retried with the specification still missing - unbounded recursion instead of a question or a value', _w(f))
     reg = [n for n in g.nodes if n.kind == 'iter' and isinstance(n.ast, ast.Call) and call_name(n.ast) == 'fields']
     rep.ob('K13', 'registers-all-lines', len(reg) == 1, '_add_form() does not register every line (required and optional) of the form in the line map', _w(f))
     # handler: adds the named form fully, not input-only
@@ -921,6 +947,20 @@ def k11_input_gate(core, rep):
             raises = [r for r in ast.walk(m) if isinstance(r, ast.Raise)]
             ok = all(isinstance(r.exc, ast.Call) and call_name(r.exc) == 'ValueError' for r in raises)
             rep.ob('K11c', f'{name}.value/raises-ValueError-only', ok, f'{name}.value() raises something valid() does not catch', f'{ci.rel}:{m.lineno}')
+    # K11d' the numeric converters hand the text to float()/int() as it is (surrounding white space apart): a converter that
+    # first deletes or swaps characters ("thousands separators", "decimal comma") turns text the user never meant as that
+    # number - "4,000" as 4.0, "," as blank = 0.0 - into a value instead of reporting it invalid
+    for cname_, c2 in core.classes.classes.items():
+        if c2.rel != 'habutax/inputs.py' or 'value' not in c2.methods:
+            continue
+        mv = c2.methods['value']
+        if not any(isinstance(c.func, ast.Name) and c.func.id in ('float', 'int') for c in calls_in(mv)):
+            continue
+        edits = [c for c in calls_in(mv) if isinstance(c.func, ast.Attribute) and c.func.attr in ('replace', 'translate', 'sub', 'subn', 'split', 'rsplit', 'partition', 'removeprefix', 'removesuffix', 'join', 'lstrip', 'rstrip')
+                 or (isinstance(c.func, ast.Attribute) and c.func.attr == 'strip' and c.args)]
+        rep.ob('K11d', f'{cname_}.value/text-converted-as-written', not edits,
+               f'{cname_}.value() edits the text before converting it (`{unparse(edits[0], 50) if edits else ""}`): text that is not a numeral of the accepted form becomes a number '
+               '("4,000" -> 4.0, "," -> blank -> 0.0) instead of being reported as invalid', f'{c2.rel}:{edits[0].lineno}' if edits else f'{c2.rel}:{mv.lineno}')
     # K11d finiteness of float inputs
     fi = core.classes.classes.get('FloatInput')
     if fi is None or 'value' not in fi.methods:
@@ -941,7 +981,10 @@ def k11_input_gate(core, rep):
         if not uses_float:
             continue
         facts = g.branch_facts(r)
-        fin = any(('isfinite' in txt and pol is True) or (('isnan' in txt or 'isinf' in txt) and pol is False) for txt, pol in facts)
+        # finite = isfinite holds, or BOTH "not nan" and "not inf" hold (isinf alone lets "nan" through, isnan alone lets "inf" through)
+        not_nan = any('isnan' in txt and pol is False for txt, pol in facts)
+        not_inf = any('isinf' in txt and pol is False for txt, pol in facts)
+        fin = any('isfinite' in txt and pol is True for txt, pol in facts) or (not_nan and not_inf)
         if cname_ != 'FloatInput':
             rep.ob('K11d', f'{cname_}/float-input-finite', fin,
                    f'{cname_}.value() converts with float() itself and returns the result without a finiteness test (it overrides FloatInput.value instead of delegating to it): "nan", "inf" '
